@@ -352,6 +352,21 @@ func dischargeBounds(c *Ctx, fn *ssa.Function, in ssa.Instruction) (string, stri
 		}
 		return false
 	}
+	// G10: q[1:len(q)-1] where q is the result of strconv.Quote / QuoteToASCII (possibly lower-cased): a quoted string
+	// is ASCII-only for QuoteToASCII and always has its two quote marks, so len(q) ≥ 2
+	if hi != nil && lo != nil {
+		if k, ok := lo.(*ssa.Const); ok && k.Int64() == 1 {
+			if x, kk, ok := minusConst(hi); ok && kk == 1 && lenOf(x) == base {
+				q := base
+				if tl := isCallTo(q, "strings.ToLower"); tl != nil {
+					q = tl.Common().Args[0]
+				}
+				if isCallTo(q, "strconv.QuoteToASCII") != nil || (q == base && isCallTo(q, "strconv.Quote") != nil) {
+					return "G10 (a quoted string always carries its two quote marks: len ≥ 2)", ""
+				}
+			}
+		}
+	}
 	// G1: x[len(x)-1] / x[:len(x)-1]
 	for _, v := range []ssa.Value{idx, hi} {
 		if v == nil {
